@@ -7,5 +7,6 @@ CONSTANTS Names <- NamesSim
           Variants <- VariantsAll
           HarmTypes = {"dir", "file", "link"}
           MaxEntries = 10
+          Reuse <- ReuseNone
           Devs = {}
 CHECK_DEADLOCK FALSE
